@@ -82,8 +82,8 @@ func main() {
 				for i := 0; i < len(c); i++ {
 					h = (h ^ uint32(c[i])) * 16777619
 				}
-				if h%3 == 0 {
-					f := strings.SplitN(c, " ", 3)
+				f := strings.SplitN(c, " ", 3)
+				if h%3 == 0 && !strings.Contains(f[1], "@alt") {
 					one(f[0] + " " + f[1] + "@alt " + f[2])
 				}
 			}
